@@ -7,6 +7,7 @@ package podtaskexecutor
 // The Pod created for (Job, parallel index, retry) carries that index's identity (C14) and is owned by the Job (C09).
 // The requires clause states that the package-level label key variables still have their distinct initial values.
 //@ func NewPod
+//@   params rj, template, index
 //@   tags C14, C09
 //@   requires rj != nil && template != nil
 //@   requires label-keys-distinct: LabelKeyJobUID != LabelKeyTaskRetryIndex && LabelKeyJobUID != LabelKeyTaskParallelIndexHash && LabelKeyTaskRetryIndex != LabelKeyTaskParallelIndexHash
@@ -38,6 +39,7 @@ package podtaskexecutor
 //@ pure envDone(n []v1.EnvVar, o []v1.EnvVar, upto int, sub subFunc) bool = len(n) == len(o) && (forall k int :: {n[k]} 0 <= k && k < len(o) ==> n[k].Name == o[k].Name && n[k].Value == (k <= upto ? sub(o[k].Value) : o[k].Value))
 //@ pure strsDone(n []string, o []string, upto int, sub subFunc) bool = len(n) == len(o) && (forall k int :: {n[k]} 0 <= k && k < len(o) ==> n[k] == (k <= upto ? sub(o[k]) : o[k]))
 //@ func substituteContainer
+//@   params container, sub
 //@   tags C18
 //@   loop 1 invariant -1 <= rangeindex && rangeindex < len(newContainer.Env) && newContainer != nil && fresh(newContainer)
 //@        && (len(container.Env) > 0 ==> fresh(newContainer.Env)) && (len(container.Command) > 0 ==> fresh(newContainer.Command)) && (len(container.Args) > 0 ==> fresh(newContainer.Args))
@@ -62,6 +64,7 @@ package podtaskexecutor
 //@     && envDone(n.Env, o.Env, len(o.Env), sub) && strsDone(n.Command, o.Command, len(o.Command), sub) && strsDone(n.Args, o.Args, len(o.Args), sub)
 // every container and init container of the pod spec is substituted (in the caller's copy of the spec)
 //@ func substitutePodSpec
+//@   params spec, sub
 //@   tags C18
 //@   requires len(spec.InitContainers) > 0 && len(spec.Containers) > 0 ==> !samearray(spec.InitContainers, spec.Containers)
 //@   modifies elems(spec.InitContainers), elems(spec.Containers)
@@ -87,6 +90,7 @@ package podtaskexecutor
 // one and the same function (built from, in this order of priority, the Job's substitutions, the job context and the task
 // context, then the reserved prefixes emptied); the template itself is left untouched.
 //@ func SubstitutePodSpec
+//@   params rj, podSpec, taskSpec
 //@   tags C18
 //@   requires rj != nil
 //@   assumes production-context-provider: typeis(variablecontext.ContextProvider, *variablecontext.defaultProvider)
